@@ -249,7 +249,7 @@ Proof.
     + intros i Hi. three i; simpl; (split; [lia|]); (split; [try reflexivity; discriminate|]);
         (split; [intros Hnd; try discriminate Hnd; intros selv; unfold default_with; simpl;
                  destruct selv as [v|]; try reflexivity; destruct (sel_key v); reflexivity
-                |intros Hnd; try discriminate Hnd; reflexivity]).
+                |intros Hnd; try discriminate Hnd; split; reflexivity]).
   - intros i Hi. three i; reflexivity.
   - intros i x Hi Hx. change (saved fx_tapp fx_state) with [0%nat; 1%nat; 2%nat] in Hi.
     destruct Hi as [Hi|[Hi|[Hi|[]]]]; subst i; simpl in Hx;
